@@ -33,8 +33,8 @@ def _const_str(e) -> Optional[str]:
 
 
 # --------------------------------------------------------------------- X1
-def x1(prog: Program, chk: Check) -> None:
-    chk.rule("X1", "the HDF5 attribute keys and dataset keys written by _create_file are exactly "
+def x1(prog: Program, chk: Check, rule: str = "X1") -> None:
+    chk.rule(rule, "the HDF5 attribute keys and dataset keys written by _create_file are exactly "
              "those read by _read_file, and each dataset is bound to the same attribute of the "
              "object on both sides", floor=3)
     cf = prog.unit(f"{PT}:FileProcessTensor._create_file")
@@ -77,18 +77,18 @@ def x1(prog: Program, chk: Check) -> None:
     if len(w_ds) < 10 or len(w_attrs) < 4:
         raise AnalysisError(f"X1: writer table shrank: {len(w_attrs)} attrs, {len(w_ds)} datasets "
                             f"(floors 4/10)")
-    chk.add("X1", cf, f"attrs written {sorted(w_attrs)}", w_attrs == r_attrs,
+    chk.add(rule, cf, f"attrs written {sorted(w_attrs)}", w_attrs == r_attrs,
             f"read {sorted(r_attrs)}" if w_attrs == r_attrs else
             f"written but never read: {sorted(w_attrs - r_attrs)}; read but never written: "
             f"{sorted(r_attrs - w_attrs)}")
-    chk.add("X1", cf, f"datasets written {sorted(w_ds)}", set(w_ds) == set(r_ds),
+    chk.add(rule, cf, f"datasets written {sorted(w_ds)}", set(w_ds) == set(r_ds),
             "same keys read" if set(w_ds) == set(r_ds) else
             f"written but never read: {sorted(set(w_ds) - set(r_ds))}; read but never written: "
             f"{sorted(set(r_ds) - set(w_ds))}")
     bound_w = {k: v for k, v in w_ds.items() if v and v.startswith("self.")}
     bound_r = {k: v for k, v in r_ds.items() if v and v.startswith("self.")}
     mism = {k: (bound_w[k], bound_r.get(k)) for k in bound_w if bound_r.get(k) != bound_w[k]}
-    chk.add("X1", rf, f"dataset -> attribute binding of {sorted(bound_w)}", not mism,
+    chk.add(rule, rf, f"dataset -> attribute binding of {sorted(bound_w)}", not mism,
             "" if not mism else f"writer and reader bind differently: {mism}")
 
 
@@ -805,6 +805,105 @@ def x11(prog: Program, chk: Check) -> None:
             "" if n_calls >= 20 else "fewer resolvable calls than confirmed by hand")
 
 
+def storage_layout(prog: Program, chk: Check, rule: str) -> None:
+    chk.rule(rule, "tensors are flattened for storage and restored in the same (logical, C) index "
+             "order: the process-tensor module flattens / reshapes nothing in memory order ('K', "
+             "'A') or Fortran order - the reader rebuilds with reshape(shape), so a tensor handed "
+             "over as a transposed / Fortran-ordered view would come back with its entries "
+             "permuted under the right shape", floor=1)
+    from rules.c20 import layout_orders
+    hits = layout_orders(prog, modules={"process_tensor"})
+    for (u, c, order) in hits:
+        chk.saw(u)
+        chk.add(rule, u, f"{norm(c)[:60]}", False,
+                f"order={order!r}: the flat data no longer follow the index order the reader "
+                f"assumes; a non-contiguous tensor is stored scrambled", c)
+    n = sum(1 for u in prog.units_in("process_tensor") for c in walk_local(u.node)
+            if isinstance(c, ast.Call) and (dotted(c.func) or "").split(".")[-1]
+            in ("ravel", "flatten", "reshape"))
+    chk.add(rule, prog.module("process_tensor"), f"{n} flatten / reshape calls in the process-tensor "
+            f"module, {len(hits)} with a layout-dependent order", True,
+            "all in logical (C) order" if not hits else "reported above")
+    if n < 1:
+        raise AnalysisError(f"{rule}: the process-tensor module no longer flattens / restores its tensors")
+
+
+def read_only_getters(prog: Program, chk: Check, rule: str) -> None:
+    chk.rule(rule, "reading a process tensor does not change it: the attributes its setters own "
+             "(the lists / data sets of MPO, cap, lambda and initial tensors) are never written "
+             "by a get_* method or a property - a getter that writes the tensor it returns back "
+             "into the store applies the basis transforms again at the next read", floor=4)
+    n = 0
+    for cq in ("process_tensor:SimpleProcessTensor", "process_tensor:FileProcessTensor",
+               "process_tensor:TrivialProcessTensor"):
+        if cq not in prog.classes:
+            continue
+        ci = prog.cls(cq)
+        owned = set()
+        for name, mu in ci.methods.items():
+            if not name.startswith("set_"):
+                continue
+            for st in walk_local(mu.node):
+                tgts = st.targets if isinstance(st, ast.Assign) else \
+                    ([st.target] if isinstance(st, ast.AugAssign) else [])
+                if isinstance(st, ast.Assign) and (isinstance(st.value, ast.Constant) or (
+                        isinstance(st.value, (ast.Tuple, ast.List)) and st.value.elts
+                        and all(isinstance(e_, ast.Constant) for e_ in st.value.elts))):
+                    tgts = []         # resetting a memo / flag: not the store of the tensors
+                for t in tgts:
+                    base = t
+                    while isinstance(base, ast.Subscript):
+                        base = base.value
+                    if isinstance(base, ast.Attribute) and isinstance(base.value, ast.Name) \
+                            and base.value.id == "self":
+                        owned.add(base.attr)
+                if isinstance(st, ast.Call) and isinstance(st.func, ast.Name) \
+                        and st.func.id.startswith("_set"):
+                    # helper that writes into the data sets it is handed
+                    for a in list(st.args) + [k.value for k in st.keywords]:
+                        if isinstance(a, ast.Attribute) and isinstance(a.value, ast.Name) and a.value.id == "self":
+                            owned.add(a.attr)
+        if not owned:
+            continue
+        for name, mu in ci.methods.items():
+            deco = [norm(d) for d in mu.node.decorator_list] if hasattr(mu.node, "decorator_list") else []
+            getter = name.startswith("get_") or "property" in deco
+            if not getter:
+                continue
+            n += 1
+            chk.saw(mu)
+            bad = []
+            for st in walk_local(mu.node):
+                tgts = st.targets if isinstance(st, ast.Assign) else \
+                    ([st.target] if isinstance(st, ast.AugAssign) else [])
+                for t in tgts:
+                    base = t
+                    while isinstance(base, ast.Subscript):
+                        base = base.value
+                    if isinstance(base, ast.Attribute) and isinstance(base.value, ast.Name) \
+                            and base.value.id == "self" and base.attr in owned:
+                        bad.append(st)
+                if isinstance(st, ast.Call) and isinstance(st.func, ast.Attribute) \
+                        and st.func.attr in ("append", "insert", "pop", "resize", "clear", "extend", "remove") \
+                        and isinstance(st.func.value, ast.Attribute) \
+                        and isinstance(st.func.value.value, ast.Name) and st.func.value.value.id == "self" \
+                        and st.func.value.attr in owned:
+                    bad.append(st)
+            chk.add(rule, mu, f"{name}: no write to {sorted(owned)[:4]}", not bad,
+                    "" if not bad else f"the getter writes the store: {norm(bad[0])[:60]}",
+                    bad[0] if bad else None)
+    if n < 4:
+        raise AnalysisError(f"{rule}: only {n} getters of the process-tensor classes found (floor 4)")
+
+
+def x13(prog: Program, chk: Check) -> None:
+    read_only_getters(prog, chk, "X13")
+
+
+def x12(prog: Program, chk: Check) -> None:
+    storage_layout(prog, chk, "X12")
+
+
 def run(prog: Program, chk: Check) -> None:
     chk.explanation = (
         "Decides the structural clauses of C16: writer/reader key-table agreement (X1), field "
@@ -827,3 +926,5 @@ def run(prog: Program, chk: Check) -> None:
     chk.call(x9, prog, chk)
     chk.call(x10, prog, chk)
     chk.call(x11, prog, chk)
+    chk.call(x12, prog, chk)
+    chk.call(x13, prog, chk)
